@@ -23,7 +23,50 @@ func init() { props["C14"] = runC14 }
 const c14Net = wire.MainNet
 const c14Limit = 1000000 // wire.SetLimits value for the run: maxMessagePayload = 2 MiB
 
-var pvers = []uint32{70013, 70012, 70011, 70002, 70001}
+// every version at which the encoding of some message changes, and the one below it: the service
+// accepts peers from version 209 on and speaks min(own, peer's)
+var pvers = []uint32{70013, 70012, 70011, 70002, 70001, 60002, 60001, 60000, 31402, 31401, 209}
+
+// first protocol version that knows the message (below it the encoder must refuse, from it on it
+// must not)
+var minPver = map[string]uint32{"sendheaders": 70012, "feefilter": 70013, "reject": 70002, "mempool": 60002, "pong": 60001}
+
+// knownCommands: written out here, independent of the table in package wire
+var knownCommands = map[string]bool{"version": true, "verack": true, "getaddr": true, "addr": true, "getblocks": true, "inv": true, "getdata": true,
+	"notfound": true, "block": true, "tx": true, "getheaders": true, "headers": true, "ping": true, "pong": true, "mempool": true, "filteradd": true,
+	"filterclear": true, "filterload": true, "merkleblock": true, "reject": true, "sendheaders": true, "feefilter": true, "getcfilters": true,
+	"getcfheaders": true, "getcfcheckpt": true, "cfilter": true, "cfheaders": true, "cfcheckpt": true, "protoconf": true, "authch": true}
+
+// expectedAt is the message a peer can recover at the given protocol version: fields the format
+// does not carry at that version come back as their zero value.
+func expectedAt(m wire.Message, pver uint32) wire.Message {
+	switch x := m.(type) {
+	case *wire.MsgPing:
+		if pver <= 60000 {
+			c := *x
+			c.Nonce = 0
+			return &c
+		}
+	case *wire.MsgAddr:
+		if pver < 31402 {
+			c := *x
+			c.AddrList = nil
+			for _, a := range x.AddrList {
+				b := *a
+				b.Timestamp = time.Time{}
+				c.AddrList = append(c.AddrList, &b)
+			}
+			return &c
+		}
+	case *wire.MsgVersion:
+		if pver < 70001 {
+			c := *x
+			c.DisableRelayTx = false
+			return &c
+		}
+	}
+	return m
+}
 
 type seed struct {
 	Kind string
@@ -302,7 +345,7 @@ func runC14(env core.Env, rep *core.Report) {
 	wire.SetLimits(c14Limit)
 	maxPayload := uint64(2 * 1024 * 1024)
 	rep.Rule = "one evaluation = one encode/decode round trip of one message shape under one protocol version, or one decode of one mutated frame; non-trivial = a boundary field value / limit-size list, or any mutated frame; distinct by (kind, shape, version) or (seed frame, mutation)"
-	rep.Bound = "[round trip: 16 kinds x shapes (counts 0,1,2,limit; limit+1 must be refused; each scalar over its boundary alphabet) x protocol versions {70013,70012,70011,70002,70001}] [hostile: for every seed frame with <=2 elements: every single-bit flip of the frame, every truncation, 8 length-field values, every payload bit flip / truncation / varint splice at every position with recomputed checksum, one splice per ordered pair of kinds at every cut, wrong magic, bad checksum, unknown and invalid-UTF-8 command] [thorough adds: every value of every payload byte, every pair of payload bit flips (payloads <= 96 bytes), splices at every pair of cuts]"
+	rep.Bound = "[round trip: 16 kinds x shapes (counts 0,1,2,limit; limit+1 must be refused; each scalar over its boundary alphabet) x protocol versions {70013,70012,70011,70002,70001,60002,60001,60000,31402,31401,209} (every version at which an encoding changes and its predecessor; fields a version does not carry must come back as zero, messages a version does not know must be refused)] [hostile: for every seed frame with <=2 elements: every single-bit flip of the frame, every truncation, 8 length-field values, every payload bit flip / truncation / varint splice at every position with recomputed checksum, one splice per ordered pair of kinds at every cut, wrong magic, bad checksum, unknown and invalid-UTF-8 command] [thorough adds: every value of every payload byte, every pair of payload bit flips (payloads <= 96 bytes), splices at every pair of cuts]"
 	progress, _ := os.OpenFile(env.Out+".progress", os.O_CREATE|os.O_RDWR, 0o644)
 	mark := func(s string) {
 		if progress != nil {
@@ -335,7 +378,15 @@ func runC14(env core.Env, rep *core.Report) {
 				continue
 			}
 			if err != nil {
-				rep.Outcome("encode:refused-for-version")
+				if pver < minPver[s.Kind] {
+					rep.Outcome("encode:refused-for-version")
+				} else {
+					viol("encode.refused_legal/"+s.Kind, fmt.Sprintf("%s %s pver %d: the encoder refuses a message within the protocol limits: %v", s.Kind, s.Desc, pver, err), rp, "a frame", err.Error())
+				}
+				continue
+			}
+			if pver < minPver[s.Kind] {
+				viol("encode.accepted_before_version/"+s.Kind, fmt.Sprintf("%s pver %d: the message does not exist at that protocol version, the encoder must refuse it", s.Kind, pver), rp, "error", fmt.Sprintf("%d bytes", len(frame)))
 				continue
 			}
 			if s.Desc != "" && s.Desc != "base" {
@@ -346,7 +397,7 @@ func runC14(env core.Env, rep *core.Report) {
 				viol("roundtrip.decode_failed/"+s.Kind, fmt.Sprintf("%s %s pver %d: decode of the encoder's own bytes failed: %v %s", s.Kind, s.Desc, pver, d.Err, firstLine(d.Panic)), rp, nil, nil)
 				continue
 			}
-			if !reflect.DeepEqual(normalize(d.Msg), normalize(s.Msg)) {
+			if !reflect.DeepEqual(normalize(d.Msg), normalize(expectedAt(s.Msg, pver))) {
 				viol("roundtrip.not_equal/"+s.Kind, fmt.Sprintf("%s %s pver %d: decode(encode(m)) != m", s.Kind, s.Desc, pver), rp, fmt.Sprintf("%+v", s.Msg), fmt.Sprintf("%+v", d.Msg))
 				continue
 			}
@@ -443,7 +494,13 @@ func runC14(env core.Env, rep *core.Report) {
 		for i := 0; i < len(f)*8; i++ {
 			m := append([]byte{}, f...)
 			m[i/8] ^= 1 << (i % 8)
-			judge("bitflip-raw", s, fmt.Sprintf("bit %d", i), m, i/8 < 4 || (i/8 >= 20 && i/8 < 24) || (i/8 >= 24))
+			// a flip in the command field must be refused unless what results is a known command
+			// padded with NULs
+			cmdOK := true
+			if i/8 >= 4 && i/8 < 16 {
+				cmdOK = knownCommands[string(bytes.TrimRight(m[4:16], "\x00"))]
+			}
+			judge("bitflip-raw", s, fmt.Sprintf("bit %d", i), m, i/8 < 4 || (i/8 >= 20 && i/8 < 24) || (i/8 >= 24) || !cmdOK)
 		}
 		// (b) every truncation
 		for n := 0; n < len(f); n++ {
